@@ -49,20 +49,21 @@ func (o TOp) value() []byte {
 }
 
 type Case struct {
-	ID       int               `json:"id"`
-	Gen      string            `json:"gen"`
-	Kind     string            `json:"kind"`           // proc | table
-	Node     string            `json:"node,omitempty"` // formatter | jff | filter
-	Pred     int               `json:"pred"`           // 0 absent 1 true 2 false 3 error
-	Type     string            `json:"type,omitempty"` // hex
-	Time     jgen.TimeSpec     `json:"time"`
-	Payload  *jgen.Recipe      `json:"payload,omitempty"`
-	Ctx      int               `json:"ctx,omitempty"`       // context handed to Process (jgen.MkContext)
-	ErrClass int               `json:"err_class,omitempty"` // which error value a failing predicate returns (jgen.InjectedError)
-	Again    int               `json:"again,omitempty"`     // further Process calls on the SAME event (the caller clobbers the stored line in between)
-	NilTab   bool              `json:"nil_table,omitempty"`
-	Pre      []jgen.TableEntry `json:"pre,omitempty"`
-	Ops      []TOp             `json:"ops,omitempty"`
+	ID        int               `json:"id"`
+	Gen       string            `json:"gen"`
+	Kind      string            `json:"kind"`           // proc | table
+	Node      string            `json:"node,omitempty"` // formatter | jff | filter
+	Pred      int               `json:"pred"`           // 0 absent 1 true 2 false 3 error
+	Type      string            `json:"type,omitempty"` // hex
+	Time      jgen.TimeSpec     `json:"time"`
+	Payload   *jgen.Recipe      `json:"payload,omitempty"`
+	Ctx       int               `json:"ctx,omitempty"`        // context handed to Process (jgen.MkContext)
+	ErrClass  int               `json:"err_class,omitempty"`  // which error value a failing predicate returns (jgen.InjectedError)
+	PrevPreds []int             `json:"prev_preds,omitempty"` // the SAME node object first processed other events with its exported Predicate field set to these outcomes (0 = nil)
+	Again     int               `json:"again,omitempty"`      // further Process calls on the SAME event (the caller clobbers the stored line in between)
+	NilTab    bool              `json:"nil_table,omitempty"`
+	Pre       []jgen.TableEntry `json:"pre,omitempty"`
+	Ops       []TOp             `json:"ops,omitempty"`
 }
 
 type Obs struct {
@@ -119,13 +120,41 @@ func runProc(c Case) (ret *retained, obs Obs, nontrivial bool) {
 		nodeLit = "NFormatter"
 	case "jff":
 		n := &el.JSONFormatterFilter{}
+		// a history on ONE node object: the caller assigns the exported Predicate field between calls; the case's own event
+		// is judged under the predicate in force at its call
+		for i, pp := range c.PrevPreds {
+			pp := pp
+			n.Predicate = nil
+			if pp != 0 {
+				n.Predicate = func(interface{}) (bool, error) {
+					return pp == 1 || pp == 4, map[bool]error{true: jgen.InjectedError(i)}[pp >= 3]
+				}
+			}
+			func() {
+				defer func() { _ = recover() }()
+				_, _ = n.Process(context.Background(), &el.Event{Type: "earlier", CreatedAt: time.Unix(int64(i), 0).UTC(), Payload: i})
+			}()
+		}
+		n.Predicate = nil
 		if c.Pred != 0 {
 			n.Predicate = func(interface{}) (bool, error) { return predRes() }
 		}
 		node = n
 		nodeLit = fmt.Sprintf("(NFormatterFilter %d)", c.Pred)
 	case "filter":
-		node = &el.Filter{Predicate: func(*el.Event) (bool, error) { return predRes() }}
+		n := &el.Filter{}
+		for i, pp := range c.PrevPreds {
+			pp := pp
+			n.Predicate = func(*el.Event) (bool, error) {
+				return pp == 1 || pp == 4, map[bool]error{true: jgen.InjectedError(i)}[pp >= 3]
+			}
+			func() {
+				defer func() { _ = recover() }()
+				_, _ = n.Process(context.Background(), &el.Event{Type: "earlier", CreatedAt: time.Unix(int64(i), 0).UTC(), Payload: i})
+			}()
+		}
+		n.Predicate = func(*el.Event) (bool, error) { return predRes() }
+		node = n
 		nodeLit = fmt.Sprintf("(NFilter %d)", c.Pred)
 	default:
 		panic("bad node " + c.Node)
@@ -641,6 +670,29 @@ func genAudit(em *emitter) {
 		str := strings.Repeat("a", n-1) + "<"
 		em.emit(Case{Gen: "audit-lengths", Kind: "proc", Node: "formatter", Type: hexs(str), Time: jgen.Times[1],
 			Payload: &jgen.Recipe{K: "map", Ks: []string{hexs(str)}, E: []*jgen.Recipe{{K: "str", V: hexs(str)}}}})
+	}
+	// histories on ONE node object: the exported Predicate field assigned between calls (every sequence of up to 2 earlier
+	// outcomes, then every outcome for the case's own event)
+	var prevs [][]int
+	for _, a := range []int{0, 1, 2, 3, 4} {
+		prevs = append(prevs, []int{a})
+		for _, b := range []int{0, 1, 2, 3} {
+			prevs = append(prevs, []int{a, b})
+		}
+	}
+	for _, pv := range prevs {
+		for pred := 0; pred < 5; pred++ {
+			em.emit(Case{Gen: "audit-node-history", Kind: "proc", Node: "jff", Pred: pred, PrevPreds: pv, Type: hexs("t"), Time: jgen.Times[1], Payload: small})
+			ok := pred != 0
+			for _, x := range pv {
+				if x == 0 {
+					ok = false
+				}
+			}
+			if ok {
+				em.emit(Case{Gen: "audit-node-history", Kind: "proc", Node: "filter", Pred: pred, PrevPreds: pv, Type: hexs("t"), Time: jgen.Times[1], Payload: small})
+			}
+		}
 	}
 	// the same event processed again, the stored line clobbered by the caller in between
 	for again := 1; again <= 2; again++ {
